@@ -60,7 +60,7 @@ pub fn plan_admin(w: &World, _k: &Knobs, actor: &mut Actor, l: &Ledger) -> Vec<(
         }
         5 | 6 => {
             // adaptive fee tier with arbitrary (valid or invalid) constants
-            let sp = *rng.pick(&[1u16, 8, 64, 128, 0]);
+            let sp = *rng.pick(&[1u16, 8, 64, 128, 0, 32768, 32896]);
             let (idx, c) = arbitrary_constants(rng, sp);
             push(
                 ix::mk(
@@ -312,7 +312,10 @@ pub fn fabricate_mint(rng: &mut Rng, authority: &Pubkey) -> FabMint {
     let freeze = rng.chance(1, 4);
     if freeze {
         d[46..50].copy_from_slice(&1u32.to_le_bytes());
-        d[50..82].copy_from_slice(authority.as_ref());
+        // (one freeze authority in four is the all-zero key: an authority is set - nobody can sign for it, but it is not "none")
+        if !rng.chance(1, 4) {
+            d[50..82].copy_from_slice(authority.as_ref());
+        }
     }
     d[165] = 1; // AccountType::Mint
     let n = match rng.below(6) {
